@@ -636,7 +636,14 @@ func (x *XRefParser) ParseAllXRefs() ([]*XRefTable, error) {
 
 	// Parse previous XRefs
 	currentTable := mainTable
+	seen := make(map[int64]bool) // /Prev offsets already followed (a corrupt file can chain them in a cycle)
 	for {
+		if prev, ok := currentTable.Trailer.Get("Prev").(Int); ok {
+			if seen[int64(prev)] {
+				return nil, fmt.Errorf("circular /Prev chain at offset %d", int64(prev))
+			}
+			seen[int64(prev)] = true
+		}
 		prevTable, err := x.ParsePrevXRef(currentTable)
 		if err != nil {
 			return nil, fmt.Errorf("failed to parse prev xref: %w", err)
